@@ -165,6 +165,7 @@ void drv_apply(const char* op)
       else ok = 0;
     }
     else if(IS("printfw")) { if(n2 >= 1 && n2 <= 400) r = s.printf("%*d", (int)n2, (int)n); else ok = 0; }
+    else if(IS("fprintfw")) { if(n2 >= 1 && n2 <= 400) { s = String::fromPrintf("%*d", (int)n2, (int)n); r = (long)s.length(); op = "printfw"; } else ok = 0; }
     else if(IS("join"))
     {
       long tot = 0;
